@@ -18,6 +18,9 @@ Has(f, x) == x \in DOMAIN f
 \* the table of sequential results: for every (operation, argument) the result of the FIRST sequential call in the log
 \* (a constant of the log - TLC evaluates it once - so it is not carried in the state)
 table == FoldLeft(LAMBDA t, e : IF e.ev = "seq" /\ ~Has(t, Key(e)) THEN (Key(e) :> e.res) @@ t ELSE t, <<>>, Trace)
+\* An operation made on an object with a history of its own (an encoder value that has already been used, also for a call
+\* that failed half way) and the same operation on a new object: "exactly the result it returns when run alone".
+AloneOf == ("wkt.Encoder.reused" :> "wkt.Encoder.alone")
 Init == i = 1 /\ bad = 0 /\ shared = <<>> /\ dirty = {} /\ finals = {}
 \* Only the call that CAUSES a deviation is blamed: once an argument has been modified (dirty), later calls on
 \* it are not compared any more - their results and snapshots are consequences, not further violations.
@@ -29,6 +32,8 @@ Why(e) ==
          ELSE IF e.pre # shared[e.arg] THEN "argument-modified-between-calls"
          ELSE IF e.post # e.pre THEN "argument-modified|" \o e.op
          ELSE IF Has(table, Key(e)) /\ table[Key(e)] # e.res THEN "result-depends-on-history|" \o e.op
+         ELSE IF Has(AloneOf, e.op) /\ Has(table, AloneOf[e.op] \o "@" \o e.arg) /\ table[AloneOf[e.op] \o "@" \o e.arg] # e.res
+              THEN "result-depends-on-history|" \o e.op
          ELSE "ok"
     [] e.ev = "scrib" ->      \* the caller overwrote the object that a call had returned: results are made of fresh storage
          IF ~Has(shared, e.arg) THEN "unknown-argument"
